@@ -96,6 +96,9 @@ func getOpIDs(s *spec.Swagger) map[string]bool {
 		piops := pathItemOps(v)
 
 		for _, op := range piops {
+			if op.ID == "" {
+				continue
+			}
 			rv[op.ID] = true
 		}
 	}
@@ -109,6 +112,7 @@ func pathItemOps(p spec.PathItem) []*spec.Operation {
 	rv = appendOp(rv, p.Put)
 	rv = appendOp(rv, p.Post)
 	rv = appendOp(rv, p.Delete)
+	rv = appendOp(rv, p.Options)
 	rv = appendOp(rv, p.Head)
 	rv = appendOp(rv, p.Patch)
 
@@ -198,6 +202,10 @@ func mergePaths(primary *spec.Swagger, m *spec.Swagger, opIDs map[string]bool, m
 			// all the proivded specs are already unique.
 			piops := pathItemOps(v)
 			for _, piop := range piops {
+				if piop.ID == "" {
+					// operations without an id are left without one
+					continue
+				}
 				if opIDs[piop.ID] {
 					piop.ID = fmt.Sprintf("%v%v%v", piop.ID, "Mixin", mixIndex)
 				}
